@@ -169,6 +169,18 @@ def discharge_local(site, vres=None):
         site.discharge = "V"
         site.detail = "block infeasible under variant-set analysis"
         return "V"
+    if site.kind == "panic":
+        # contradictory dominating guards: the arm is dead (e.g. `[] => unreachable!()` under `!is_empty()`)
+        gl = guards(body, bb)
+        for pol, ge, _ in gl:
+            m = re.fullmatch(r"is_empty\((.*)\)", ge)
+            if pol == "F" and m:
+                x = re.escape(m.group(1))
+                if any(p2 == "T" and re.fullmatch(r"Eq\((PtrMetadata|len)\(%s\),0\)" % x, g2) for p2, g2, _ in gl):
+                    site.discharge = "G"
+                    site.detail = "dominating guards contradict: !is_empty(%s) and len == 0" % m.group(1)
+                    return "G"
+        return None
     if site.kind == "unwrap":
         t = body.blocks[bb]["term"]
         c = Call(body, bb, t)
